@@ -9,6 +9,8 @@ RULE = ("requests: every generator (Xoshiro256, SplitMix64, Wyrand, ChaCha8/12/2
 ASSUMPTIONS = ["writes are observed through a canary-framed arena (64 bytes each side) and two backgrounds; thorough runs repeat a subset under Miri (supporting evidence only)"]
 
 ELEMS = {"u8": (1, 1), "u16": (2, 2), "u32": (4, 4), "u64": (8, 8), "u128": (16, 16), "a3u8": (3, 1), "a5u32": (20, 4)}
+RB = ["rb0", "rb1", "rb2", "rb3", "rb4", "rb4u32", "rb4f32", "rb4u16x2", "rb8", "rb8a", "rb8f64", "rb13", "rb16", "rb20", "rb32", "rb300"]
+RBLEN = {"rb0": 0, "rb1": 1, "rb2": 2, "rb3": 3, "rb4": 4, "rb4u32": 4, "rb4f32": 4, "rb4u16x2": 4, "rb8": 8, "rb8a": 8, "rb8f64": 8, "rb13": 13, "rb16": 16, "rb20": 20, "rb32": 32, "rb300": 300}
 GENS = ["xoshiro", "splitmix", "wyrand", "chacha8", "chacha12", "chacha20", "mock", "system"]
 
 
@@ -34,7 +36,7 @@ def generate(r, tier, build):
         pre = [] if gen == "mock" else [r.choice(["u32", "u64", "fill:3", "fill:250", "fill:9", "jump"]) for _ in range(r.below(4))]
         src = "words=%s" % ",".join(str(r.edge64()) for _ in range(r.choice([0, 1, 2, 3, 5, 80, 600]))) if gen == "mock" else "n=%d" % r.choice([2, 4, 31, 31, 64]) if gen == "system" else "seed=%d" % r.edge64()
         if api == "random_bytes":
-            reqs.append("fillb gen=%s %s api=random_bytes elem=%s pre=%s" % (gen, src, r.choice(["rb0", "rb1", "rb3", "rb8", "rb13", "rb20", "rb32", "rb300"]), ",".join(pre)))
+            reqs.append("fillb gen=%s %s api=random_bytes elem=%s pre=%s" % (gen, src, r.choice(RB), ",".join(pre)))
             continue
         elem = "u8" if api in ("read", "read_exact") else r.choice(list(ELEMS))
         esize, align = ELEMS[elem]
@@ -89,11 +91,17 @@ def extra(binary, build, tier, rng):
         pre = [rng.choice(["u32", "u64", "fill:3", "fill:8", "jump"]) for _ in range(rng.below(3))]
         nbytes = length(rng)
         off = rng.below(16)
-        api = rng.choice(["fill_bytes", "read", "read_exact", "fill_bytes_uninit"])
+        api = rng.choice(["fill_bytes", "read", "read_exact", "fill_bytes_uninit", "random_bytes"])
+        if api == "random_bytes":
+            shape = rng.choice([x for x in RB if x != "rb0"])
+            nbytes, off = RBLEN[shape], shape
         cases.append((gen, seed, pre, nbytes, off, api))
     reqs = []
     for gen, seed, pre, nbytes, off, api in cases:
-        reqs.append("fillb gen=%s seed=%d api=%s elem=u8 off=%d count=%d pre=%s" % (gen, seed, api, off, nbytes, ",".join(pre)))
+        if api == "random_bytes":
+            reqs.append("fillb gen=%s seed=%d api=random_bytes elem=%s pre=%s" % (gen, seed, off, ",".join(pre)))
+        else:
+            reqs.append("fillb gen=%s seed=%d api=%s elem=u8 off=%d count=%d pre=%s" % (gen, seed, api, off, nbytes, ",".join(pre)))
         reqs.append("word gen=%s seed=%d via=from_seed ops=%s" % (gen, seed, ",".join(pre + ["u64"] * ((nbytes + 7) // 8 + 1))))
     rc, res, err = C.run_lines(binary, ["run"], reqs)
     for k, (gen, seed, pre, nbytes, off, api) in enumerate(cases):
@@ -107,7 +115,7 @@ def extra(binary, build, tier, rng):
         if got != want[:nbytes]:
             i = next(j for j in range(nbytes) if got[j:j + 1] != want[j:j + 1])
             yield {"kind": "oracle", "build": build, "request": reqs[2 * k], "impl": fr[:300], "model": wr[:300],
-                   "oracle": "the %d-byte fill is not the little-endian serialisation of the successive next_u64 outputs from the same state (first difference at byte %d; start offset %d)" % (nbytes, i, off)}
+                   "oracle": "the %d-byte fill is not the little-endian serialisation of the successive next_u64 outputs from the same state (first difference at byte %d; start offset / shape %s)" % (nbytes, i, off)}
         elif ft.get("next") != str(words[(nbytes + 7) // 8]):
             # the property fixes the bytes, not how far the generator has advanced afterwards: reported, not judged
             yield {"kind": "note", "text": "%s: after the %d-byte fill the generator is not exactly ceil(n/8) words further" % (reqs[2 * k], nbytes)}
